@@ -1190,6 +1190,14 @@ class Interp:
         return envs
 
     def ex_ListComp(self, n, env):
+        g0 = n.generators[0]
+        if len(n.generators) == 1 and not g0.ifs and isinstance(n.elt, ast.List) and not n.elt.elts and isinstance(g0.target, ast.Name) \
+                and isinstance(g0.iter, ast.Call) and isinstance(g0.iter.func, ast.Name) and g0.iter.func.id == 'range' and not env.has('range'):
+            # `[[] for i in range(n)]` with symbolic n: n distinct empty lists (exact; the target is not used by the element)
+            src = self.expr(g0.iter, env)
+            if isinstance(src, Sym) and hasattr(src, 'seq_len'):
+                from .nested import NestedIntLists
+                return NestedIntLists.empty(self.ctx, z3.simplify(src.seq_len(self.ctx)))
         return [self.expr(n.elt, e) for e in self.comp_envs(n.generators, env)]
 
     def ex_GeneratorExp(self, n, env):
